@@ -396,6 +396,14 @@ pub fn lib_format(src: &str, config: sl::Config) -> Option<String> {
     std::panic::catch_unwind(|| sl::format_code(src, config, None, sl::OutputVerification::None).ok()).ok().flatten()
 }
 
+/// library output with an optional range and the verification mode of the command line (`--verify`)
+pub fn lib_format_full(src: &str, config: sl::Config, range: (Option<usize>, Option<usize>), verify: bool) -> Option<String> {
+    crate::engine::install_quiet_panic_hook();
+    let r = if range.0.is_some() || range.1.is_some() { Some(sl::Range::from_values(range.0, range.1)) } else { None };
+    let v = if verify { sl::OutputVerification::Full } else { sl::OutputVerification::None };
+    std::panic::catch_unwind(|| sl::format_code(src, config, r, v).ok()).ok().flatten()
+}
+
 /// The probe program: its formatted text differs for every option value
 pub const PROBE: &str = "local  s = 'it\\'s \"q\"'\nlocal t = {  a = 1, bb = function() return 1 end,\n    c = \"str\" }\nrequire 'mod'\nlocal zz = require(\"zz\")\nlocal aa = require(\"aa\")\nif x then return end\nlocal function f( a, b ) return a + b end\ncall_something(argument_number_one, argument_number_two, argument_number_three, 'four')\nf { 1 }\n";
 
